@@ -167,11 +167,15 @@ def run(ctx):
         f = P.fn(name)
         r2.instance(f.qname)
         ops = [(op, f.show(rhs)) for b, i, e, lhs, rhs, op in f.stores() if f.sn(lhs)["k"] == "un"]
-        okk = len(ops) == 1 and ops[0][0] == want and (want == "|=" or "~" in ops[0][1]) and list(f.calls("set_condition"))
+        # ... and what is awaited afterwards is the whole shared word, not the single flag
+        whole = all(f.sn(f.nodes[c]["args"][1])["k"] == "un" and f.sn(f.nodes[c]["args"][1])["op"] == "*" and
+                    f.sn(f.sn(f.nodes[c]["args"][1])["sub"]).get("name") == f.params[1]["name"] for c in f.calls("set_condition"))
+        okk = len(ops) == 1 and ops[0][0] == want and (want == "|=" or "~" in ops[0][1]) and list(f.calls("set_condition")) and whole
         if okk:
             r2.ok("%s: *condition %s %s, then xcm_await with the whole word" % (name, want, ops[0][1]), "operator check")
         else:
-            r2.violation("%s:operator" % name, "%s changes the shared condition word with %s: the other direction's interest on the same leg is clobbered" % (name, ops), loc=f.file)
+            r2.violation("%s:operator" % name, "%s changes the shared condition word with %s and then awaits %s: the other direction's interest on the same leg is "
+                         "clobbered (with traffic in both directions one of them stalls)" % (name, ops, [f.show(f.nodes[c]["args"][1]) for c in f.calls("set_condition")]), loc=f.file)
     for name, spec in (("xfwd_await_input", {("add_condition", "src", RCV), ("del_condition", "dst", SND)}), ("xfwd_await_output", {("add_condition", "dst", SND), ("del_condition", "src", RCV)})):
         f = P.fn(name)
         r2.instance(f.qname)
@@ -301,3 +305,41 @@ def run(ctx):
             r5.violation("xrelay_destroy:xcm_close(%s)-without-finish" % v, "when one side closes, the relay closes the other leg (%s) at once: a message it has already accepted "
                          "from the closing side but only partly written (back-pressure) is cut off - the far side sees the close before the last message" % v, loc=xd.loc(c))
     r5.floor(2, "closes of relayed legs")
+
+    # ------------------------------------------------------------------ R6
+    r6 = ctx.rule("C20.R6", "every socket the relay creates is non-blocking: the single event loop never waits for one connection")
+    nb_maps = set()
+    for f in P.functions:
+        for c in f.calls("xcm_attr_map_add_bool"):
+            a = f.nodes[c]["args"]
+            nm = f.sn(a[1])
+            if nm["k"] == "str" and nm.get("v") == "xcm.blocking" and C.const_of(f, a[2]) == 0:
+                fl = f.fields_of(a[0])
+                nb_maps.add(fl[-1] if fl else (f.name + ":" + (f.sn(a[0]).get("name") or "?")))
+    ncre = 0
+    for f in P.functions:
+        if not f.file.startswith("tools/xcmrelay/"):
+            continue
+        for c in f.calls():
+            n = f.nodes[c]
+            if n.get("callee") in ("xcm_connect_a", "xcm_server_a"):
+                ncre += 1
+                r6.instance("%s: %s" % (f.qname, n["callee"]))
+                fl = f.fields_of(n["args"][1])
+                key = fl[-1] if fl else (f.name + ":" + (f.sn(n["args"][1]).get("name") or "?"))
+                if key in nb_maps:
+                    r6.ok("%s in %s gets an attribute map with xcm.blocking=false" % (n["callee"], f.name), "value origin of the map")
+                else:
+                    r6.violation("%s:%s:blocking" % (f.name, n["callee"]), "%s is called with %s, a map on which xcm.blocking=false is never set: the call blocks the relay's only "
+                                 "thread (connect, TLS handshake, DNS) and every established relay freezes meanwhile" % (n["callee"], f.show(n["args"][1])), loc=f.loc(c))
+            elif n.get("callee") in ("xcm_connect", "xcm_server", "xcm_accept"):
+                ncre += 1
+                r6.instance("%s: %s" % (f.qname, n["callee"]))
+                if n["callee"] == "xcm_connect" and (C.const_of(f, n["args"][1]) or 0) & 1:
+                    r6.ok("%s with XCM_NONBLOCK" % n["callee"], "constant flag")
+                elif n["callee"] == "xcm_accept":
+                    r6.ok("xcm_accept inherits the server socket's mode", "documented inheritance")
+                else:
+                    r6.violation("%s:%s:blocking" % (f.name, n["callee"]), "%s creates a blocking socket inside the event loop" % n["callee"], loc=f.loc(c))
+    if ncre < 2:
+        raise Broken("C20.R6: only %d socket-creating calls in the relay" % ncre)
